@@ -27,6 +27,14 @@ CHECKS = {
     },
 }
 
+CHECKS["C20"] = {
+    "engine": "H",
+    "technique": "deterministic simulation: seeded operation/fault histories of holders sharing objects vs. a dict reference model, ddmin-minimised replay",
+    "text": "Seeded search over histories (4..40 dict operations on 3 Datagroups + 2 Datasets sharing member objects, rejected operations injected as faults) checked step by step against a Python-dict model with shape gate, type gate, renaming, parent link, meta; == checked against an independent content comparison with its own unit-factor table. Sampling, not proof.",
+    "note": "Trusted: CPython dict as the reference; independent unit-factor table (exact factors only); numpy.",
+    "design_ref": "DESIGN.md 2.4, 3 (C20)",
+}
+
 PENDING_REASON = "check not built yet in this snapshot of /verif (planned and applicable, see DESIGN.md section 3); not claimed until its check exists"
 ALL = ["C%02d" % i for i in range(1, 21)]
 
